@@ -36,12 +36,14 @@ def crop_to_bbox(
     if len(bbox) % 2 != 0:
         raise ValueError(f"Bounding box should have the form of [x_0, x_1, ..., h_0, h_1], but got length {ndim}.")
     bbox_coords, bbox_size = np.asarray(bbox[:ndim]), np.asarray(bbox[ndim:])
-    # Offsets
+    # Offsets (clipped to the size of the box, so that a box lying entirely outside the data selects nothing)
     l_offset = -bbox_coords.copy()
     l_offset[l_offset < 0] = 0
+    l_offset = np.minimum(l_offset, bbox_size)
 
     r_offset = (bbox_coords + bbox_size) - np.array(data.shape)
     r_offset[r_offset < 0] = 0
+    r_offset = np.minimum(r_offset, bbox_size)
 
     region_idx = [slice(i, j) for i, j in zip(bbox_coords + l_offset, bbox_coords + bbox_size - r_offset)]
 
